@@ -388,6 +388,7 @@ def run(ctx):
     if ctx.prop == "C02" and not getattr(ctx, "_sharing", False):
         from .common import share
         share(ctx, "C03", ("R03.1",), "R02.7", "source-order obligations shared with C03", 3)
+        share(ctx, "C13", ("R13.1",), "R02.7", "declaration obligations shared with C13 (a refused re-declaration leaves no entry behind: a ghost option of the same name would be offered the token first and swallow the value)", 4)
         share(ctx, "C01", ("R01.5", "R01.8", "R01.10"), "R02.7", "matching/bundle obligations shared with C01", 5)
     # ---- R02.8: what the spelling means does not depend on the parser object's past or on the entry point taken
     ctx.rule("R02.8", "a spelled value is not rejected or replaced because of an earlier parse (R14.2 re-evaluated) and raw strings become tokens in one place only (R12.10 re-evaluated)")
